@@ -80,3 +80,24 @@ def explore(ck):
     for c in cases:
         for t in c.meta['tags']: ck.count('feature:' + t.split('=')[0])
         ck.count('coin:' + c.coin); ck.count('verify:%s' % c.verify)
+    # ---- in-process: BlockchainRead::read_block through the parse-block hook vs the Coq mirror: every generated block, plus truncations and byte mutations
+    #      (both sides must agree on success/failure, consumed length, header fields, txids and the re-serialised bytes that are hashed) ----
+    reqs = []
+    for i in range(30 if quick else 300):
+        coin = gen.ALL_COINS[i % 8]; t, tg = boundary_tx(r, feats[i % len(feats)], False)
+        thr = COINS[coin]['aux']; ver = r.choice(U32 + [2] + ([thr, thr - 1, thr + 1] if thr else []))
+        aux = auxpow_section(Tx([(b'\x00' * 32, 0xffffffff, b'\x01', 1)], [(1, b'\x51')]), [gen.rb(r, 32) for _ in range(r.choice([0, 1, 33]))], [], gen.rb(r, 80)) if (thr is not None and ver >= thr) else b''
+        b = Block(gen.rb(r, 32), [coinbase_tx(i, [(5, b'\x51')]), t], version=ver, auxpow=aux)
+        raws = [b.raw, b.raw + gen.rb(r, 5)] + [b.raw[:r.randrange(0, len(b.raw))] for _ in range(3)]
+        m = bytearray(b.raw); m[r.randrange(len(m))] ^= 1 << r.randrange(8); raws.append(bytes(m))
+        for raw in raws:
+            if len(raw) < 200000: reqs.append((coin, len(b.raw), raw))
+    impl = run.hook_lines(ck.tools, 'parse-block', ['%s %d %s' % (c_, sz, raw.hex() if raw else '-') for c_, sz, raw in reqs])
+    mod = run.model_lines(ck.tools, ['block %s %d %s' % (c_, sz, raw.hex() if raw else '-') for c_, sz, raw in reqs])
+    for (c_, sz, raw), a, b in zip(reqs, impl, mod):
+        ck.evaluated(); ck.count('parse-block hook requests')
+        a2 = 'err' if a.startswith('err') else ('panic' if a.startswith('PANIC') else a)
+        # allocation failure on absurd counts (capacity overflow) is not modelled: a panic on the implementation side counts as a read failure of a malformed block
+        if a2 == 'panic' and b == 'err': ck.count('parse-block: impl panics on a malformed block where the model reports a read error (allocation of an absurd count)'); continue
+        if a2 != b: ck.disagreement('read_block on %s (%d bytes)' % (c_, len(raw)), 'impl=%s model=%s' % (a[:300], b[:300]), None, in_domain=(b != 'err'), extra_replay='block %s %d %s' % (c_, sz, raw.hex()))
+
